@@ -510,9 +510,9 @@ func (rl *Shell) transposeWords() {
 	rl.selection.Visual(false)
 	transposeWith, wbpos, wepos, _ := rl.selection.Pop()
 
-	// We might be on the first word of the line,
-	// in which case we don't do anything.
-	if tbpos == 0 {
+	// We might be on the first word of the line, or have
+	// found no word at all, in which case we don't do anything.
+	if tbpos <= 0 || wbpos < 0 {
 		rl.cursor.Set(startPos)
 		return
 	}
@@ -522,6 +522,12 @@ func (rl *Shell) transposeWords() {
 		wbpos, tbpos = tbpos, wbpos
 		wepos, tepos = tepos, wepos
 		transposeWith, toTranspose = toTranspose, transposeWith
+	}
+
+	// Both selections might be the same or overlapping words.
+	if wepos > tbpos {
+		rl.cursor.Set(startPos)
+		return
 	}
 
 	// Assemble the newline
